@@ -185,6 +185,8 @@ def run(ctx):
             ne = w.cover_edges(stutter=True)
             npaths, complete = w.all_paths(3 if (thorough and pname == 'x1') else 2, budget=600000)
             nr = w.random_walks(3000 if thorough else 400, 10, ctx.seed)
+            from harness.graph import blind_walks
+            blind_walks(w, 1500 if thorough else 200, 8, ctx.seed)          # nothing read before the end of the walk
             ctx.stage('replay.%s' % fam, concretisation=pname, values=s, graph_states=len(g.state), graph_edges=g.n_edges,
                       edges_replayed=ne, paths=npaths, random_walks=nr, real_calls=w.steps)
     if thorough:
